@@ -185,8 +185,12 @@ def apply_pre(state: State, pre: List[Dict[str, Any]], env: simenv.SimEnv) -> No
                 fh.seek(pos)
                 b = fh.read(1)
                 fh.seek(pos)
-                fh.write(bytes([b[0] ^ 0xFF]))
-            env.log("fault_fired", kind="flip_byte", path=f["path"], pos=pos)
+                fh.write(bytes([b[0] ^ f.get("mask", 0x01)]))
+            # what the bytes on disk are now: the oracle judges later loads against this
+            from .ops_files import read_any
+            info = read_any(env, path)
+            env.log("fault_fired", kind="flip_byte", path=f["path"], pos=pos, valid=bool(info.get("valid")),
+                    doc=info.get("doc") if info.get("valid") else None)
         else:
             raise SimHarnessError(f"unknown pre-fault {kind}")
 
